@@ -11,7 +11,7 @@ REPLAY = {"C19": {"driver": "analysis", "trace_module": "Trace_Analysis", "trace
 
 
 def analysis_part(c, wd, prop, tier):
-    runs = [("MC_Router", "MC_Router_c19quick.cfg" if tier == "quick" else "MC_Router_c19thorough.cfg")]
+    runs = [("MC_Router", "MC_Router_c19quick.cfg" if tier == "quick" else "MC_Router_c19thorough.cfg"), ("MC_Router", "MC_Router_c19ips.cfg")]
     if prop == "C19":
         runs.insert(0, ("MC_Analysis", "MC_Analysis_quick.cfg" if tier == "quick" else "MC_Analysis_thorough.cfg"))
         runs.insert(1, ("MC_Analysis", "MC_Analysis_hosts.cfg"))
